@@ -330,6 +330,35 @@ fn history_case(front: Front, reg: Reg, rng: &mut Prng, col: &mut Collector) {
                 );
             }
         }
+        // ---- (1b) the same document through a positional format -------------------------------------
+        // compact formats an embedded application persists with hand a struct's fields over as a
+        // sequence in declaration order, without names (seqform.rs): the session must come back from
+        // that as well, equal in every field
+        match trap(|| crate::seqform::from_value::<lorawan_device::mac::Session>(&jv)) {
+            Err(t) => {
+                col.violation(&format!("C20|restore-panics|positional-format|{}", short_loc(&t.loc)), "deserialising a serialised session from a positional format panicked", ctx("positional", json!({"msg": t.msg, "loc": t.loc})));
+            }
+            Ok(Err(e)) => {
+                col.violation(
+                    "C20|restore-fails|positional-format",
+                    "a serialised session does not deserialise from a format that hands structs over as sequences of their fields (postcard, bincode, ...)",
+                    ctx("positional", json!(e.to_string())),
+                );
+            }
+            Ok(Ok(r2)) => {
+                col.event("positional_restores_compared");
+                if let Some(dbg) = &debugs[k] {
+                    let got = format!("{:?}", r2);
+                    if &got != dbg {
+                        col.violation(
+                            &format!("C20|restored-field-differs|positional-format|{}", sc.split('|').next().unwrap_or("")),
+                            "the session restored from a positional format is not equal to the original in every field (their Debug forms differ)",
+                            ctx("positional-debug", json!({"original": dbg, "restored": got})),
+                        );
+                    }
+                }
+            }
+        }
         // (compared as JSON values: the harness' own document went through serde_json::Value,
         // which orders keys alphabetically)
         let again = serde_json::to_string(&restored).unwrap();
